@@ -367,7 +367,7 @@ def c08(report, rng, tier, findings):
     lines = run_driver([c08_sexp(c) for c in cases])
     report.rule = ("random well-bracketed histories (2-10 steps, thorough 16) of entering/leaving symbolic_mode / rule_mode blocks "
                    "(with and without a query) and `with query:` blocks - leaving normally or by raising - interleaved with creating, "
-                   "advancing, exhausting, closing and dropping (gc) result iterators (half of them over a query whose domain is supplied by another query: nested evaluation) at any point; executed with REAL with-statements; "
+                   "advancing, exhausting, closing and dropping (gc) result iterators (half of them over a query whose domain is supplied by another query: nested evaluation; in 60% of the histories with iterators some belong to queries whose evaluation RAISES at the second result - mixed data, a raising user predicate - the exception being caught where it surfaces) at any point; executed with REAL with-statements; "
                    "after every step in_symbolic_mode(), in_symbolic_mode(Rule), type(Symbol(..)), whether `x == 1` raises and the "
                    "expression-stack length are compared with the model and the reference; non-trivial = the history has an iterator "
                    "operation inside a block or after the block it was created in")
@@ -398,8 +398,8 @@ def c08(report, rng, tier, findings):
     return ['EqlModel.Props.C08'], [
         "single thread (other threads / asyncio tasks have their own context)",
         "CPython runs a generator's finally block at close()/finalisation; the position of that step is universally quantified",
-        "an exception raised by the data layer when an iterator is advanced (counted as iterator_advance_raised_*) is not a "
-        "statement about the mode: the mode observables after that step are still compared"]
+        "an exception raised when an iterator is advanced - by design (raising queries) or by the data layer - is counted as "
+        "iterator_advance_raised_* and is one more step after which the mode observables are compared"]
 
 
 # ------------------------------------------------------------------------------------------- C14
